@@ -16,6 +16,7 @@ func init() {
 			"PV-ROLE: drop/keep value matchers are built in the label (whole value) flavour from one selector; label_format writes its label only when the template ran cleanly; PV-ALIAS: no pcommon value is mutated unless created in the same function",
 			"no Delete outside the selection predicate's verdict in drop/keep; no strconv.Unquote (raw-string templates keep \r); __error__ first-wins guard of SetError",
 			"PV-PAIR groupEntries: the stream key is LabelSet.String() (injective, order-independent), so entries with different rewritten label sets never share a stream; rename deletes the source in the iteration that read it",
+			"PV-API label regexps are compiled anchored; CH-MAP string matcher table (=~ is a regexp match, case flags included)",
 		},
 		NotDecided: []string{"what text/template and sprig functions compute", "whether ansiPattern matches exactly the ANSI colour sequences (regexp semantics)"},
 		Rules: func(r *Run) {
@@ -41,6 +42,8 @@ func init() {
 			ruleSetErrorFirstWins(r) // a failing template is flagged with __error__ unless an error is already recorded
 			ruleGroupEntries(r)      // an entry is reported under the labels its rewriting stages left: the stream key tells label sets apart
 			ruleLabelSetString(r)
+			ruleLabelRegexAnchoring(r)
+			ruleCHBuilders(r) // the value matchers of drop/keep implement their operator
 		},
 	})
 }
